@@ -13,11 +13,11 @@ POOL_NOTE = ("Thorough tier adds a coverage-guided libFuzzer leg (cargo-fuzz tar
 CHECKS = {
     "C02": dict(engine="poolsim", ref="§5 C02, §4 E1",
         technique="stateful property-based testing: generated operation histories (proptest) interpreted against the real pool with scripted collaborators; invariant checked at every hand-off",
-        text="No counterexample among the generated issue/poll/cancel/dial/handshake/release/ready/close/upgrade/background histories: at every hand-off of a non-multiplexed connection nobody else held it, it had reported ready since its previous use, and it had not been taken over by an upgrade; the model connection comes in two flavours (is_open() = open and ready, as the crate's HttpConnection, or = not closed, which the trait also allows). An idle-list-pressure leg keeps one origin's idle list at max_idle 1-2 with peers closing idle connections while busy connections are released. Exploration, not proof: histories up to 40 (quick) / 120 (thorough) operations, up to 16 requests.",
+        text="No counterexample among the generated issue/poll/cancel/dial/handshake/release/ready/close/upgrade/background histories: at every hand-off of a non-multiplexed connection nobody else held it, it had reported ready since its previous use, and it had not been taken over by an upgrade; the model connection comes in two flavours (is_open() = open and ready, as the crate's HttpConnection, or = not closed, which the trait also allows). An idle-list-pressure leg keeps one origin's idle list at max_idle 1-2 with peers closing idle connections while busy connections are released. A single-use leg runs the same histories with connections that are never shareable whatever version was asked for (custom Protocol). Exploration, not proof: histories up to 40 (quick) / 120 (thorough) operations, up to 16 requests.",
         note=POOL_NOTE),
     "C03": dict(engine="poolsim", ref="§5 C03, §4 E1",
         technique="stateful property-based testing with fault-sequence generation (dial/handshake failures, cancels) plus deterministic drain and probe; history invariants: no request pending after drain, no progress without a wake-up",
-        text="Every generated history is followed by a drain (all outstanding attempts terminate) and a fresh probe request per origin: every uncancelled request must have resolved, no request may progress on a re-poll without its waker having fired (lost wake-up), and the probe must complete.",
+        text="Every generated history is followed by a drain (all outstanding attempts terminate) and a fresh probe request per origin: every uncancelled request must have resolved, no request may progress on a re-poll without its waker having fired (lost wake-up), and the probe must complete. Legs: profile, generic, mixed-version churn on one origin, and single-use connections (no connection shareable, as with a custom Protocol: requests that waited on an HTTP/2 attempt are then served one after the other).",
         note=POOL_NOTE),
     "C04": dict(engine="poolsim+netsim", ref="§5 C04, §4 E1, §10.3",
         technique="stateful property-based testing; necessary-condition rules over harness ground truth (reuse, HTTP/2 dial dedup, sharing, cancel preserves) compared with the transport's connect() calls",
@@ -25,11 +25,11 @@ CHECKS = {
         note=POOL_NOTE + " Rule preconditions are lower bounds (ambiguity can hide violations, never invent them); one documented exclusion for rule B (DESIGN §5 C04)."),
     "C05": dict(engine="poolsim", ref="§5 C05, §4 E1",
         technique="stateful property-based testing with peer-close faults injected at every stage; hand-off invariant against recorded close/entry steps; small real-time leg for idle expiry",
-        text="At every hand-off of a previously pooled connection its close step is compared with the request's issue step and the connection's last pool-entry step; two expiry legs (random histories and structured scenarios with several idle connections of different ages, one of them closed) sleep in real time on both sides of a 25 ms idle_timeout with one-sided assertions; a third leg uses whole-second timeouts (1 s / 2 s) with a 1.15 s sleep. Expiry is monitored for multiplexed (HTTP/2) connections too: a clone may only be handed out while the connection's last use lies within idle_timeout; the idle-list-pressure leg (max_idle 1-2, peers closing idle connections) and idle_timeout = Duration::MAX are part of the configurations.",
+        text="At every hand-off of a previously pooled connection its close step is compared with the request's issue step and the connection's last pool-entry step; two expiry legs (random histories and structured scenarios with several idle connections of different ages, one of them closed) sleep in real time on both sides of a 25 ms idle_timeout with one-sided assertions; a third leg uses whole-second timeouts (1 s / 2 s) with a 1.15 s sleep. Expiry is monitored for multiplexed (HTTP/2) connections too: a clone may only be handed out while the connection's last use lies within idle_timeout; the idle-list-pressure leg (max_idle 1-2, peers closing idle connections) and idle_timeout = Duration::MAX are part of the configurations. A real-time end-to-end leg (engine rtpool) builds the client through Client::builder() with with_pool(config) and an optional request timeout, sends rounds of 1-3 concurrent HTTP/1 requests (answered at once or after 70 ms) with pauses of 0/5/70 ms around a 30 ms idle timeout to a real Server: no request may travel on a connection that has been idle for more than idle_timeout + 25 ms.",
         note=POOL_NOTE + " Idle expiry uses std::time::Instant: only coarse one-sided real-time assertions."),
     "C06": dict(engine="poolsim", ref="§5 C06, §4 E1",
         technique="stateful property-based testing over a 25-entry origin table (scheme, port, host, letter case, near misses such as the other scheme's default port, IP literals) and over hundreds of synthetic origins; hand-off invariant on (scheme, host, effective port)",
-        text="At every hand-off the origin the connection was dialed for equals the origin of the request's URI, with waiters and idle connections alive for several origins at once; a near-miss leg draws 2-4 origins per case from the whole table (http://h:443 vs http://h, https://h:80 vs https://h, same explicit port under the other scheme, ws/wss/custom schemes, mixed letter case with explicit ports, hosts extending one another, IPv4/IPv6 literals), with caller-supplied Host headers naming a shared virtual host on all or every second request; a many-origins leg first sweeps 40-700 distinct origins (so that key/token bookkeeping is exercised at scale) and then issues requests to early and late origins.",
+        text="At every hand-off the origin the connection was dialed for equals the origin of the request's URI, with waiters and idle connections alive for several origins at once; a near-miss leg draws 2-4 origins per case from the whole table (http://h:443 vs http://h, https://h:80 vs https://h, same explicit port under the other scheme, ws/wss/custom schemes, mixed letter case with explicit ports, user information in the authority, hosts extending one another, IPv4/IPv6 literals), with caller-supplied Host headers naming a shared virtual host on all or every second request; a many-origins leg first sweeps 40-700 distinct origins (so that key/token bookkeeping is exercised at scale) and then issues requests to early and late origins.",
         note=POOL_NOTE),
     "C14": dict(engine="poolsim", ref="§5 C14, §4 E1",
         technique="stateful property-based testing; obligation tracking over generated schedules (release vs first poll vs background hand-back vs dial completion), both continue_after_preemption settings",
@@ -37,7 +37,7 @@ CHECKS = {
         note=POOL_NOTE),
     "C15": dict(engine="poolsim+netsim", ref="§5 C15, §4 E1, §10.3",
         technique="stateful property-based testing; lower bound of retained idle connections per origin (counted from Drop-tracking harness connections) compared with max_idle_per_host after every operation",
-        text="After every operation the number of connections that are certainly idle in the pool (alive, open, unheld, handed back with nobody waiting, minus one per issued-but-unpolled request) never exceeds max_idle_per_host in {0,1,2,3,32}. An end-to-end leg (netsim) counts the connections an HTTP/1-only origin still sees open long after bursts of requests completed: never more than max_idle_per_host.",
+        text="After every operation the number of connections that are certainly idle in the pool (alive, open, unheld, handed back with nobody waiting, minus one per issued-but-unpolled request) never exceeds max_idle_per_host in {0,1,2,3,32}. An end-to-end leg (netsim) counts the connections an HTTP/1-only origin still sees open long after bursts of requests completed: never more than max_idle_per_host. A real-time end-to-end leg (engine rtpool, Client::builder() with with_pool(config), requests that outlast the idle timeout, pauses on both sides of it) counts the connections the server still sees open at quiescence.",
         note=POOL_NOTE),
 }
 
@@ -47,7 +47,7 @@ EYE_NOTE = ("Trusted base: tokio paused clock (virtual time exact at 1 ms); the 
 CHECKS.update({
     "C10": dict(engine="eyeballs+tcpeyes", ref="§5 C10/C11, §4 E4, §10.3",
         technique="property-based testing in virtual time: exhaustive small-scope enumeration plus random attempt sets against statement-derived necessary conditions and a differential reference (discrete-event simulation)",
-        text="Every combination of up to 2 (quick) / 3 (thorough) scripted attempts over the outcome/latency/stagger/timeout/concurrency grid is enumerated, plus random sets of up to 8 attempts: the result must be the first success, failure only after every candidate failed (first failure), timeout only at the deadline without an earlier success, no-progress only for the empty set; tie-free cases must equal the reference exactly. A transport-level leg runs the real TcpTransport::connect_to_addrs over loopback candidates that accept, refuse or hang (listener with a full accept queue) with timeout in {none, 1.2, 1.6, 2.4 s} and concurrency in {none, 0..3}: outcome and completion time must match the reference for stagger = timeout / number of addresses (banded real-time assertions; a deviation that machine load could explain is repeated and counts when it occurs three times in a row; configurations in which nothing allows progress must still be pending after 0.5 s).",
+        text="Every combination of up to 2 (quick) / 3 (thorough) scripted attempts over the outcome/latency/stagger/timeout/concurrency grid is enumerated, plus random sets of up to 8 attempts (candidates given through push, extend or both; the set awaited through finish() or its IntoFuture impl): the result must be the first success, failure only after every candidate failed (first failure), timeout only at the deadline without an earlier success, no-progress only for the empty set; tie-free cases must equal the reference exactly. A transport-level leg runs the real TcpTransport::connect_to_addrs over loopback candidates that accept, refuse or hang (listener with a full accept queue) with timeout in {none, 1.2, 1.6, 2.4 s} and concurrency in {none, 0..3}: outcome and completion time must match the reference for stagger = timeout / number of addresses (banded real-time assertions; a deviation that machine load could explain is repeated and counts when it occurs three times in a row; configurations in which nothing allows progress must still be pending after 0.5 s).",
         note=EYE_NOTE),
     "C11": dict(engine="eyeballs+tcpeyes", ref="§5 C10/C11, §4 E4, §10.3",
         technique="property-based testing in virtual time: recorded first-poll instants of scripted attempts checked against ordering/pacing/deadline conditions and a differential reference",
@@ -55,7 +55,7 @@ CHECKS.update({
         note=EYE_NOTE),
     "C16": dict(engine="addrsort", ref="§5 C16, §4 E7",
         technique="exhaustive small-scope enumeration plus property-based testing against an independent specification (stable partition); end-to-end differential leg over loopback listeners",
-        text="All IPv4/IPv6 family patterns up to length 8 (quick) / 12 (thorough) for the four local-binding combinations, exhaustively, plus random lists with duplicates: output is a permutation, first/second element and remainder order equal the specification, set_port applies to every address; through TcpTransport with a scripted resolver and local bindings (none, loopback, wildcard) the socket is opened to the URI's port (explicit, or 80/443 by scheme) whatever port the resolver's answer carries, through TcpTransport and SimpleTcpTransport; the accepted peer is the first live address of the specified order, also when addresses in front of it hang (listeners that never answer: the next address is tried after the stagger delay).",
+        text="All IPv4/IPv6 family patterns up to length 8 (quick) / 12 (thorough) for the four local-binding combinations, exhaustively, plus random lists with duplicates: output is a permutation, first/second element and remainder order equal the specification, set_port applies to every address; through TcpTransport with a scripted resolver and local bindings (none, loopback, wildcard) the socket is opened to the URI's port (explicit, or 80/443 by scheme) whatever port the resolver's answer carries, through TcpTransport and SimpleTcpTransport; the accepted peer is the first live address of the specified order, with unlimited concurrency the attempts reach one dual-stack listener in the specified order (arrival order = start order); also when addresses in front of it hang (listeners that never answer: the next address is tried after the stagger delay).",
         note="Trusted base: the hook wrappers call the crate-private routines unchanged; loopback networking for the end-to-end leg (dead addresses are sockets held bound without listening: refused at once, immediate compared with the >= 570 ms stagger, and not bindable by anyone else meanwhile)."),
     "C20": dict(engine="sni+tlsstack", ref="§5 C20, §4 E10, §10.3",
         technique="grammar-based property testing of the public ValidateSNI layer against an independent reference predicate (two-directional: never forwarded on mismatch, never rejected on match)",
@@ -77,18 +77,18 @@ CHECKS.update({
         note="In the TLS pair leg an end may also vanish abruptly (transport dropped without close_notify): the reader must then see an error, never a clean end of stream. Trusted base: wrapper adapters are pass-through (no buffering); real-socket legs use 2 s real-time guards whose expiry is inconclusive, never a violation; rustls/tokio-rustls record layer in the TLS pair leg (pipes below a record header stall in the TLS stack itself and are excluded)."),
     "C19": dict(engine="timeout+poolsim+netsim", ref="§5 C19, §4 E9/E1/E2",
         technique="property-based testing in virtual time: exhaustive grid plus random (duration, inner completion, first-poll delay) cases for the Timeout layer; stateful pool histories with virtual-time advances so deadlines fire at every stage of a pooled request",
-        text="Unit leg: result value, resolution instant (never later than the deadline), inner future dropped at resolution and never polled again; durations range from 0 to Duration::MAX (no panic, the inner result is delivered). Pool leg: requests wrapped in the real Timeout inside poolsim histories; a request polled at or after its deadline must resolve, a timeout never fires early, no connection is handed to a request that already ended, and after the drain a probe to every origin is served. End-to-end leg: the real client stack with with_timeout against slow handlers in netsim, with followed redirects (timeouts fire exactly at the deadline, which covers the whole chain of hops; no request future resolves after its deadline; completed requests are intact, a fresh client is served afterwards).",
+        text="Unit leg: result value, resolution instant (never later than the deadline), inner future dropped at resolution and never polled again; durations range from 0 to Duration::MAX (no panic, the inner result is delivered); the future may be polled once under another waker before the task awaits it. Pool leg: requests wrapped in the real Timeout inside poolsim histories; a request polled at or after its deadline must resolve, a timeout never fires early, no connection is handed to a request that already ended, and after the drain a probe to every origin is served. End-to-end leg: the real client stack with with_timeout against slow handlers in netsim, with followed redirects (timeouts fire exactly at the deadline, which covers the whole chain of hops; no request future resolves after its deadline; completed requests are intact, a fresh client is served afterwards).",
         note="Trusted base: tokio paused clock; poolsim collaborators (see C02). When the first poll happens after both the deadline and the inner completion either answer is accepted."),
 })
 
 CHECKS.update({
     "C13": dict(engine="reqgrammar+tlsstack", ref="§5 C13, §4 E6, §10.3",
         technique="grammar-based property testing of the public client layers and the real connection builder with the wire captured; oracle = statement-derived expectations on request target, Host header, version, stripped headers and protocol selection",
-        text="Requests from a grammar (schemes, hosts incl. IPv4/IPv6, ports, paths, queries, URI forms, methods incl. CONNECT, all versions, pre-set headers) crossed with connection outcomes (request version x ALPN) go through SetHostHeader/Http2Checks/Http1Checks over a stub connection, through ConnectionPoolService (pooled/unpooled) and ConnectorService with stub collaborators, and through the real HttpConnectionBuilder + RequestExecutor with the bytes captured: preface iff HTTP/2 requested or ALPN h2; HTTP/1 target, Host (caller's preserved) and HTTP/2 header stripping / CONNECT rejection as stated. The full-stack TLS leg (engine tlsstack) checks the version the real TLS server's handler observes against requested version x negotiated ALPN (h2, http/1.1, h3, none, conflict). An end-to-end leg (netsim) follows redirects between origins and checks Host / :authority on every hop.",
+        text="Requests from a grammar (schemes, hosts incl. IPv4/IPv6, ports, paths, queries, URI forms, methods incl. CONNECT, all versions, pre-set headers) crossed with connection outcomes (request version x ALPN) go through SetHostHeader/Http2Checks/Http1Checks over a stub connection, through ConnectionPoolService (pooled/unpooled) and ConnectorService with stub collaborators, and through the real HttpConnectionBuilder + RequestExecutor with the bytes captured: preface iff HTTP/2 requested or ALPN h2; HTTP/1 target, Host (caller's preserved) and HTTP/2 header stripping / CONNECT rejection as stated. An end-to-end leg (netsim, followed redirects, pooled HTTP/2 connections reused by later requests) requires every hop to name its origin and every request to arrive unaltered - a request its connection's protocol rejects counts. The full-stack TLS leg (engine tlsstack) checks the version the real TLS server's handler observes against requested version x negotiated ALPN (h2, http/1.1, h3, none, conflict). An end-to-end leg (netsim) follows redirects between origins and checks Host / :authority on every hop.",
         note="Trusted base: the http crate decides which requests are well-typed; hyper serialises the final http::Request (target compared via to_string and, in the wire leg, parsed from the captured bytes); for schemes without a default port either Host form is accepted."),
     "C17": dict(engine="reqgrammar+tlswire", ref="§5 C17, §4 E6/E5",
         technique="grammar-based robustness testing with a process-wide panic hook and catch_unwind: any panic located in the library (caller task or spawned task) is a violation; debug assertions on",
-        text="The C13 request grammar (every http::Version constant, standard/extension methods incl. CONNECT, absolute/origin/authority/asterisk forms, DNS/IPv4/bracketed IPv6/unusual hosts from tables and from the URI grammar (reg-names over unreserved, sub-delims and pct-encoded characters, bracketed literals with arbitrary URI characters incl. IPvFuture and [], very long labels and names), header sets, bodies) is sent through the check layers, ConnectionPoolService with and without pool, ConnectorService and the real connection builder; panics caught by the runtime in spawned tasks are observed through the hook. A pool leg runs the poolsim histories with failing connect / handshake attempts and boundary configurations (idle_timeout 0 and Duration::MAX, max_idle 0) and flags any panic located in the library as well as a connect or handshake future polled again after completion.",
+        text="The C13 request grammar (every http::Version constant, standard/extension methods incl. CONNECT, absolute/origin/authority/asterisk forms, DNS/IPv4/bracketed IPv6/unusual hosts from tables and from the URI grammar (reg-names over unreserved, sub-delims and pct-encoded characters, bracketed literals with arbitrary URI characters incl. IPvFuture and [], very long labels and names), header sets, bodies) is sent through the check layers, ConnectionPoolService with and without pool, ConnectorService and the real connection builder; panics caught by the runtime in spawned tasks are observed through the hook. A pool leg runs the poolsim histories with failing connect / handshake attempts and boundary configurations (idle_timeout 0 and Duration::MAX, max_idle 0) and flags any panic located in the library as well as a connect or handshake future polled again after completion. A TCP leg hands the grammar's URIs and 22 degenerate but well-typed ones (empty host, user information only, missing port, schemes without default port) to the real TcpTransport, SimpleTcpTransport and Client::build_tcp_http with a resolver that answers nothing or an address that refuses.",
         note="Trusted base: panic hook + location filter (/repo/); full-stack TLS/TCP legs live in the C12 engine (tlswire) and netsim."),
 })
 
@@ -109,7 +109,7 @@ CHECKS.update({
     "C09": dict(engine="netsim+socksrv+tlsstack", ref="§5 C09, §4 E2, §10.3",
         technique="fault-sequence generation in virtual time: per-connection faults (cancelled connect, disconnects, garbage, truncated head/body, mid-response disconnect, partial preface, clients asking for a 0- or 1-byte pipe, handler errors) interleaved with well-behaved requests; oracle = serving futures still pending, probe client served, other requests correct",
         text="After 1-5 generated faults per case (incl. a crowd of 2-65 clients that connect in one instant and hang up; servers built plain or with_graceful_shutdown on a signal that never resolves) the serving future of every server must still be pending, a fresh well-behaved probe client must be served by every server, and every well-behaved request on other connections must have completed with its correct response.",
-        note=NET_NOTE + " A real-socket leg (engine socksrv) repeats the fault/probe scheme on TCP and Unix acceptors in real time (reset or close before accept, garbage, truncated head/body, Unix clients bound to plain and non-UTF-8 pathnames); a probe that merely times out there is inconclusive. A TLS-listener leg (engine tlsstack) injects plaintext, garbage, truncated-ClientHello, immediate-close and wrong-SNI clients at a real Server with with_tls and then requires a well-behaved TLS probe to be served and the serving future still pending. A capped make-service leg (engine makeready) gives the Server a make-service that admits a bounded number of live connections: call() without a preceding Ready from poll_ready is a violation, and a stalled client must not keep later clients from being served once a slot frees up. OS-level accept() errors are not reachable."),
+        note=NET_NOTE + " A real-socket leg (engine socksrv) repeats the fault/probe scheme on TCP and Unix acceptors in real time (reset or close before accept, garbage, truncated head/body, Unix clients bound to plain and non-UTF-8 pathnames); a probe that merely times out there is inconclusive. A TLS-listener leg (engine tlsstack) injects plaintext, garbage, truncated-ClientHello, immediate-close and wrong-SNI clients at a real Server with with_tls and then requires a well-behaved TLS probe to be served and the serving future still pending. A faulty-before-accept leg (engine queueaccept) serves, through Acceptor::new(..) with and without with_tls and Server::with_acceptor, a listener written against the public Accept trait that hands out streams on which the peer has already spoken (plaintext, garbage, partial ClientHello or preface) or which it has already left. A capped make-service leg (engine makeready) gives the Server a make-service that admits a bounded number of live connections: call() without a preceding Ready from poll_ready is a violation, and a stalled client must not keep later clients from being served once a slot frees up. OS-level accept() errors are not reachable."),
 })
 
 NOT_YET = {
@@ -131,7 +131,7 @@ NOT_YET = {
 CHECKS.update({
     "C12": dict(engine="tlswire+tlsstack", ref="§5 C12, §4 E5, §10.3",
         technique="property-based testing with fault injection at the TLS peer: generated (scheme, host form, port, peer behaviour, ALPN, client TLS) combinations through the real TlsTransport with the client's wire recorded; oracle = TLS record framing of every byte, absence of a secret token, outcome vs certificate validity, SNI seen by the peer",
-        text="For https/wss with a client TLS configuration every byte put on the wire must parse as TLS records and never contain the application secret; a stream is only returned after a handshake with a peer whose (fixture) certificate is valid for the URI host and the SNI offered equals that host; mismatching, untrusted, plaintext, closing, truncating and silent peers yield an error or nothing, never a stream; other schemes pass bytes verbatim; no syntactically valid host panics; a Host header naming another host (covered by the certificate or not, or an IP address) changes neither the server name offered nor the name the certificate is checked against. The full-stack leg (engine tlsstack) runs the whole client (pool, connector, TlsTransport, HTTP/1 and HTTP/2) against a real TLS Server: request secrets in path/header/body never appear in the recorded client bytes, every byte is TLS-framed, and the server's certificate resolver sees SNI = URI host; the client is built with the TLS setting made before or after the builder calls that rebuild it. Request sequences mix schemes (http, https, ws, wss) to one authority through one pooled client, against the TLS server and a plaintext twin behind the same transport: a secure-scheme request must arrive through TLS, a plain one must not be wrapped.",
+        text="For https/wss with a client TLS configuration every byte put on the wire must parse as TLS records and never contain the application secret; a stream is only returned after a handshake with a peer whose (fixture) certificate is valid for the URI host and the SNI offered equals that host; mismatching, untrusted, plaintext, closing, truncating and silent peers yield an error or nothing, never a stream; other schemes pass bytes verbatim; no syntactically valid host panics; a Host header naming another host (covered by the certificate or not, or an IP address) changes neither the server name offered nor the name the certificate is checked against, and neither does an earlier use of the same transport value for another host. The full-stack leg (engine tlsstack) runs the whole client (pool, connector, TlsTransport, HTTP/1 and HTTP/2) against a real TLS Server: request secrets in path/header/body never appear in the recorded client bytes, every byte is TLS-framed, and the server's certificate resolver sees SNI = URI host; the client is built with the TLS setting made before or after the builder calls that rebuild it. Request sequences mix schemes (http, https, ws, wss) to one authority through one pooled client, against the TLS server and a plaintext twin behind the same transport: a secure-scheme request must arrive through TLS, a plain one must not be wrapped.",
         note="Trusted base: rustls on both ends, the committed 100-year fixture certificates and the system clock inside their validity; ALPN offers without overlap are accepted either way."),
 })
 NOT_YET = {}
